@@ -164,6 +164,9 @@ def random_tree(rng, depth, want='N'):
         if c < 0.55:
             op = rng.choice('+-*/')
             l, r_ = random_tree(rng, depth - 1, 'N'), random_tree(rng, depth - 1, 'N')
+            if rng.random() < 0.2 and len(l) > 2:
+                # the SAME sub-expression text again right of a bracketed group: (A1+B1)*A1+B1 groups only what the brackets hold
+                return f'({l}){op}{l}' if rng.random() < 0.6 else f'({l})%{op}{l}{rng.choice("+-*")}{r_}'
             if rng.random() < 0.35:
                 l = f'({l})'
             if rng.random() < 0.35:
@@ -214,7 +217,8 @@ def _plan(tier, seed):
 
 PER_BOOK = 150
 # hand-picked operator mixes that the enumerations do not produce (several decorations at once, chained %)
-SPECIAL = ['=A1%%', '=5%%', '=A1%%+B1', '=(A1)%%', '=-A1%', '=-A1%*-B1%', '=-(A1+B1)%', '=--A1', '=-+-A1', '=A1--B1', '=A1-+B1',
+SPECIAL = ['=A1%%', '=5%%', '=A1%%+B1', '=(A1)%%', '=-A1%', '=-A1%*-B1%', '=-(A1+B1)%', '=--A1', '=-+-A1', '=A1--B1', '=A1-+B1', '=(A1+B1)*A1+B1', '=(A1-B1)-A1-B1', '=(A1+B1)%*A1+B1', '=2*(A1+B1)*A1+B1', '=(1+2)*1+2', '=(A1-B1)/A1-B1', '=(A1*B1)+A1*B1', '=(A1+B1)*$A$1+B$1',
+           '=(A1&B1)&A1&B1=A1&B1', '=(A1<B1)=A1<B1', '=(A1-B1)*(A1-B1)-A1-B1',
            '=A1*-B1', '=A1/-B1%', '=-A1*B1+C1', '=-(A1)*B1', '=(-A1)%', '=((A1))', '=((A1+B1))*((C1))', '=(A1+B1)%*C1',
            '=(A1+B1)%+C1', '=(A1+B1)%-C1', '=(A1+B1)%/C1', '=(A1+B1)%&A2', '=A2&(A1+B1)%', '=A1+B1%+C1%', '=A1%+B1%', '=A1%-B1',
            '=A1%*B1%', '=A1%/B1', '=A1%&A2', '=A1%=B1%', '=A1<B1=TRUE', '=A1+B1<C1+D1', '=A1&B1=A1&B1', '=A1+B1&C1+D1',
